@@ -14,6 +14,7 @@ use std::rc::Rc;
 
 pub use host::Ev;
 
+pub mod call;
 pub mod gen_expr;
 
 // ------------------------------------------------------------------ types
@@ -65,10 +66,10 @@ impl IntTy {
             IntTy::I64 => "i64",
         }
     }
-    pub fn min(self) -> i128 {
+    pub fn min_val(self) -> i128 {
         if self.signed() { -(1i128 << (self.bits() - 1)) } else { 0 }
     }
-    pub fn max(self) -> i128 {
+    pub fn max_val(self) -> i128 {
         if self.signed() { (1i128 << (self.bits() - 1)) - 1 } else { (1i128 << self.bits()) - 1 }
     }
     /// two's-complement wrap of an arbitrary integer into this type
@@ -85,8 +86,8 @@ impl IntTy {
         let w = self.bits();
         let mut v = if self.signed() {
             vec![
-                self.min(),
-                self.min() + 1,
+                self.min_val(),
+                self.min_val() + 1,
                 -2,
                 -1,
                 0,
@@ -95,8 +96,8 @@ impl IntTy {
                 (1i128 << (w / 2)) - 1,
                 (1i128 << (w / 2)) + 1,
                 -(1i128 << (w / 2)),
-                self.max() - 1,
-                self.max(),
+                self.max_val() - 1,
+                self.max_val(),
             ]
         } else {
             vec![
@@ -108,8 +109,8 @@ impl IntTy {
                 (1i128 << (w / 2)) + 1,
                 1i128 << (w - 1),
                 (1i128 << (w - 1)) - 1,
-                self.max() - 1,
-                self.max(),
+                self.max_val() - 1,
+                self.max_val(),
             ]
         };
         v.sort();
@@ -1139,7 +1140,7 @@ pub fn binop(op: BinOp, a: V, b: V) -> R {
                     if y == 0 {
                         return Err(Stop::Unspecified("division by zero"));
                     }
-                    if t.signed() && x == t.min() && y == -1 {
+                    if t.signed() && x == t.min_val() && y == -1 {
                         return Err(Stop::Unspecified("MIN / -1"));
                     }
                     // truncation toward zero (Rust semantics on i128)
